@@ -234,7 +234,7 @@ def run(ctx, model_available=True):
             dist["battery_levels"][str(n.battery_level)] = dist["battery_levels"].get(str(n.battery_level), 0) + 1
             for c in n.children.values():
                 dist["values"] += len(c.values)
-            if any(ord(ch) > 127 for ch in n.sketch_name + n.sketch_version + n.protocol_version):
+            if any(ord(ch) > 127 for ch in str(n.sketch_name) + str(n.sketch_version) + str(n.protocol_version)):
                 dist["non_ascii_strings"] += 1
         shapes.add((len(nodes), tuple(sorted(len(n.children) for n in nodes.values())),
                     tuple(sorted({n.battery_level for n in nodes.values()}))[:3],
@@ -313,7 +313,9 @@ def run(ctx, model_available=True):
         if not nodes:
             im.close()
             continue
-        for scenario in ("fail-then-save", "save-change-save", "save-save"):
+        # (save-forget-save last: it empties the registry — every node removed by the application,
+        # then saved: the file must load to the empty registry, not to what it held before)
+        for scenario in ("fail-then-save", "save-change-save", "save-save", "save-forget-save"):
             sessions += 1
             sub = os.path.join(files.dir, f"sub{sessions}")
             path = os.path.join(sub, "p.json")
@@ -333,6 +335,11 @@ def run(ctx, model_available=True):
                     k0 = next(iter(nodes))
                     nodes[k0].sketch_name = nodes[k0].sketch_name + "!"
                     nodes[k0].battery_level = (nodes[k0].battery_level + 1) % 101
+                    files.loop.run_until_complete(p.save())
+                elif scenario == "save-forget-save":
+                    os.mkdir(sub)
+                    files.loop.run_until_complete(p.save())
+                    nodes.clear()
                     files.loop.run_until_complete(p.save())
                 else:
                     os.mkdir(sub)
@@ -402,6 +409,20 @@ def replay(ctx, rp):
     outcome, loaded, _ = files.load(content)
     print(outcome[:1500])
     ok = outcome.startswith("OK") and reg_plain(loaded) == reg_plain(im.gw.nodes)
+    if case.get("scenario") == "save-forget-save":
+        import os
+
+        from aiomysensors.persistence import Persistence
+
+        path = os.path.join(files.dir, "forget.json")
+        p = Persistence(im.gw.nodes, path)
+        files.loop.run_until_complete(p.save())
+        im.gw.nodes.clear()
+        files.loop.run_until_complete(p.save())
+        back: dict = {}
+        files.loop.run_until_complete(Persistence(back, path).load())
+        print("saved, every node removed, saved again; the file loads to nodes", sorted(back))
+        ok = ok and not back
     files.close()
     im.close()
     return 0 if ok else 1
